@@ -343,6 +343,16 @@ def mon_out(stream, case, obs, want):
                             hits.append((i, "window-at-connack" if at_connack else "window",
                                          f"{n_in} messages in flight on connection {c} with max_inflight={N}"
                                          + (" (retransmission after CONNACK ignores the window)" if at_connack else "")))
+                    # C13: no message is overtaken - when a message is first written on a connection, every live message that
+                    # was accepted earlier and belongs to the same class (accepted before / after the connection was opened)
+                    # has been written on it already
+                    if "order" in want and conforming and newly and kind == "PUBLISH":
+                        old_cls = r["seq"] <= conn_open_seq.get(c, 0)
+                        skipped = [m_ for m_, x in live.items() if x["seq"] < r["seq"] and not x["wire"].get(c)
+                                   and (x["seq"] <= conn_open_seq.get(c, 0)) == old_cls]
+                        if skipped:
+                            hits.append((i, "order-skipped", f"PUBLISH mid={m} first written on connection {c} while the earlier "
+                                         f"message(s) {sorted(skipped)} have not been transmitted on it"))
                     # C13 order
                     if "order" in want:
                         seqs_new = [s_ for (k_, m_, s_) in sent_on[c] if k_ == "PUBLISH" and s_ > conn_open_seq.get(c, 0)]
@@ -362,6 +372,10 @@ def mon_out(stream, case, obs, want):
                     hits.append((i, "dup-qos0", "QoS 0 PUBLISH with DUP=1"))
             elif it[0] == "ev":
                 e = it[1]
+                if e.startswith("sopen"):
+                    # messages accepted earlier in this very step (a publish from inside on_pre_connect) precede the connection
+                    conn_open_seq.setdefault(int(e[5:]), seq)
+                    continue
                 if e.startswith("cbpub:"):
                     # publish() called by the application from inside on_publish (stream `reentry`)
                     _, q_, rc_, mid_ = e.split(":")
@@ -441,6 +455,17 @@ def mon_out(stream, case, obs, want):
             # (a message whose PUBLISH sits in the outgoing queue behind a blocked socket is in progress, not missing)
             if len(sent_now) < need and p.get("ww") == "0":
                 hits.append((i, "retransmit-missing", f"CONNACK accepted on connection {cur}: {len(sent_now)} of {len(pending)} pending messages (re)transmitted, window={N}"))
+        # ... and afterwards: a message accepted before this connection was opened is not left untransmitted on it while
+        # the window has room (C01: 'transmitted again as soon as the in-flight window admits it'; C13: 'all messages
+        # accepted before a connection was opened are (re)transmitted on it')
+        if ("retx" in want or "order" in want) and conforming and p.get("st") == "connected" and cur and cur == sock_before \
+                and t[0] not in ("send",) and p.get("ww") == "0" and not (t[0] == "rx" and t[1] == "connack") \
+                and not any(x.startswith("exc") for x in st["evs"]):
+            inwin = sum(1 for x in live.values() if x["wire"].get(cur))
+            old_waiting = [m_ for m_, x in live.items() if not x["wire"].get(cur) and x["seq"] <= conn_open_seq.get(cur, 0)]
+            if old_waiting and (N == 0 or inwin < N):
+                hits.append((i, "retransmit-stuck", f"message(s) {sorted(old_waiting)} accepted before connection {cur} was opened are not "
+                             f"(re)transmitted on it although only {inwin} of {N} window slots are used"))
         # no idle slot on an established connection
         if "idle" in want and conforming and N > 0 and p.get("st") == "connected" and cur:
             inwin = sum(1 for x in live.values() if x["wire"].get(cur))
